@@ -61,21 +61,29 @@ package planner
 //@ end
 
 //@ func (*QueryPlanStep).SetComputedValues
-//@ props C07 C08
+//@ props C06 C07 C08
 //@ requires s != nil && ctx != nil && ctx.Operation != nil && ctx.Schema != nil
 //@ ensures[self] result == s
+//@ modifies-assumed fresh, all(QueryPlanStep.formatter), all(QueryPlanStep.OperationName), all(QueryPlanStep.VariablesList), all(QueryPlanStep.QueryString), all(QueryPlanStep.QueryStringHash), elems(*QueryPlanStep), all(format.Formatter.operationType), all(format.Formatter.operationName), all(format.Formatter.schema), all(format.Formatter.writer), all(format.Formatter.indentSize), all(format.Formatter.padNext), all(format.Formatter.lineHead)
+// the query string of this step has just been computed (setQuery) when the loop over the
+// children is reached: the operation keyword it was formatted with is pinned there
+//@ loop 0 entry[op-type-root] len(s0.InsertionPoint) == 0 ==> s.formatter != nil && s.formatter.Formatter.operationType == ctx.Operation.Operation @props C06
+//@ loop 0 entry[op-type-child] len(s0.InsertionPoint) > 0 && old(s.formatter) == nil ==> s.formatter != nil && s.formatter.Formatter.operationType == "query" @props C06
+//@ loop 0 invariant[self] s == s0
 //@ end
 
 //@ func (*QueryPlanStep).setVariablesList
-//@ props C07 C08
+//@ props C06 C07 C08
 //@ requires s != nil
-//@ ensures[self] result == s
+//@ ensures[self] result == s && s.formatter == old(s.formatter) && s.InsertionPoint == old(s.InsertionPoint)
+//@ modifies-assumed fresh, s.VariablesList
 //@ end
 
 //@ func (*QueryPlanStep).setQuery
-//@ props C07 C08
-//@ requires s != nil
-//@ ensures[self] result == s
+//@ props C06 C07 C08
+//@ requires s != nil && s.formatter != nil && s.formatter.Formatter != nil
+//@ ensures[self] result == s && s.formatter == old(s.formatter) && s.formatter.Formatter == old(s.formatter.Formatter) && s.formatter.Formatter.operationType == old(s.formatter.Formatter.operationType)
+//@ modifies-assumed fresh, s.QueryString, s.QueryStringHash, all(format.Formatter.writer), all(format.Formatter.indentSize), all(format.Formatter.padNext), all(format.Formatter.lineHead)
 //@ end
 
 //@ func (ScrubFields).Clean
